@@ -431,14 +431,14 @@ func dbExecOps(ops []string, outs []string) {
 
 type dbGen struct {
 	utf8Only bool // keep keys valid UTF-8 (the notifications trimmer rejects batches with other keys)
-	rng    *rand.Rand
-	ops    []string
-	off    int64
-	ts     uint64
-	keys   [][]byte // key alphabet of this program
-	sess   []int64
-	idxN   []string
-	seqPfx [][]byte
+	rng      *rand.Rand
+	ops      []string
+	off      int64
+	ts       uint64
+	keys     [][]byte // key alphabet of this program
+	sess     []int64
+	idxN     []string
+	seqPfx   [][]byte
 }
 
 var dbKeyAlphabets = [][]string{
@@ -486,7 +486,9 @@ func (g *dbGen) write(toks ...string) {
 	g.ops = append(g.ops, fmt.Sprintf("db.write off=%d ts=%d %s", g.off, g.ts, strings.Join(toks, " ")))
 }
 
-func (g *dbGen) sessionKeyBytes(s int64) []byte { return []byte(fmt.Sprintf("__oxia/session/%016x", s)) }
+func (g *dbGen) sessionKeyBytes(s int64) []byte {
+	return []byte(fmt.Sprintf("__oxia/session/%016x", s))
+}
 
 // randomPutOpts builds the option mix of a put; mode selects the emphasis.
 func (g *dbGen) randomPutOpts(mode string, versions []int64) map[string]string {
